@@ -1,5 +1,5 @@
 (* Properties/C05.v — merging is local. *)
-From AY Require Import Model.Merge Proofs.Local Proofs.FlagsLemmas.
+From AY Require Import Model.Merge Proofs.Local Proofs.FlagsLemmas Proofs.Frame.
 
 (* The path at which two nodes are merged only reaches error reports: for every pair of trees (all tags, flags, kinds),
    the merged node and the outcome class are the same at any two paths. (This is the statement that the defect repaired
@@ -30,6 +30,51 @@ Theorem C05_fuel_irrelevant : forall als fuel p s o, noFuel (on_merge als fuel p
   forall n, on_merge als (n + fuel) p s o = on_merge als fuel p s o.
 Proof. exact on_merge_fuel_irrelevant. Qed.
 Print Assumptions C05_fuel_irrelevant.
+
+(* ---- the frame clause (extension round 7): "paths that the newer document does not mention, and that are not below a deleting node of it,
+   come out unchanged" - for the GENERAL merge: any merge-control tags, priorities, marks and metadata anywhere in both trees.  Unchanged =
+   Sim (same kinds, content, keys, order and explicit flags; implicit flags are re-derived when a parent's flags change), hence the same
+   plain data (C05_sim_content). ---- *)
+
+(* one level, any stage (aliases left behind by !clear included): a key of the older mapping that the newer, non-deleting mapping does
+   not mention *)
+Theorem C05_frame : forall als fuel p fs xs chs fo xo cho r w k c,
+  delete (Comp CDict fo xo cho) = false ->
+  on_merge als (S fuel) p (Comp CDict fs xs chs) (Comp CDict fo xo cho) = Ok (r, w) ->
+  aget k chs = Some c -> aget k cho = None ->
+  exists c', get_child r k = Some c' /\ Sim c c'.
+Proof. exact merge_frame. Qed.
+Print Assumptions C05_frame.
+
+(* at any depth: [nmiss o q] - the newer tree leaves the path q at a mapping and no mapping of it on the way deletes (its keys unique, as
+   in every YAML mapping); [dget s q] - what the older tree holds at the path of mapping keys q *)
+Theorem C05_frame_at_any_depth : forall q fuel p s o r w c,
+  on_merge [] fuel p s o = Ok (r, w) -> nmiss o q -> dget s q = Some c -> exists c', dget r q = Some c' /\ Sim c c'.
+Proof. exact merge_frame_deep. Qed.
+Print Assumptions C05_frame_at_any_depth.
+
+(* a key the newer mapping does mention holds the recursive merge of the two values (up to Sim), whatever the sibling keys hold *)
+Theorem C05_mentioned_key_is_recursive_merge : forall rec p fs xs chs fo xo cho r w k v c0,
+  delete (Comp CDict fo xo cho) = false -> NoDup (map fst cho) ->
+  comp_merge rec [] p (Comp CDict fs xs chs) (Comp CDict fo xo cho) = Ok (r, w) ->
+  aget k chs = Some c0 -> aget k cho = Some v -> is_comp c0 = true -> explicit_delete v = false ->
+  exists n w0 f' ch' c', rec (p ++ [k]) c0 v = Ok (n, w0) /\ r = Comp CDict f' xs ch' /\ aget k ch' = Some c' /\ Sim n c'.
+Proof. exact comp_merge_hit. Qed.
+Print Assumptions C05_mentioned_key_is_recursive_merge.
+
+(* non-vacuity: a !force mapping and a !weak scalar beside the untouched path; the newer stage overrides a sibling two levels down *)
+Example C05_frame_example :
+  let L f v := Leaf LScalar f (SInt v) in
+  let D f ch := Comp CDict f SNone ch in
+  let s := D F0 [(KS 1, D (set_prio F0 (Some 1)) [(KS 2, D F0 [(KS 3, L F0 1)]); (KS 4, L (set_prio F0 (Some (-1))) 2)])] in
+  let o := D F0 [(KS 1, D F0 [(KS 4, L F0 5); (KS 6, L F0 6)])] in
+  nmiss o [KS 1; KS 2; KS 3] /\ (exists c, dget s [KS 1; KS 2; KS 3] = Some c) /\
+  (match on_merge [] 10 [] s o with Ok (r, _) => option_map erase (dget r [KS 1; KS 2; KS 3]) | _ => None end) = Some (PS (SInt 1)).
+Proof.
+  cbn zeta. split; [|split; [eexists; reflexivity|vm_compute; reflexivity]].
+  cbn. repeat split; try reflexivity;
+    repeat (constructor; cbn [map fst In]; try (intros [E|E]; [discriminate E|]); try tauto).
+Qed.
 
 Example C05_example :
   let L v := Leaf LScalar F0 (SInt v) in
